@@ -196,12 +196,6 @@ Proof.
   rewrite (Hall _ (nth_In av false Hlt)). reflexivity.
 Qed.
 
-Fixpoint rr_run (av : list bool) (robin : N) (m : nat) : list (option nat) :=
-  match m with
-  | O => []
-  | S k => let '(r, robin') := rr_select av robin in r :: rr_run av robin' k
-  end.
-
 Lemma rr_run_all_up av : forall m robin,
   (0 < length av)%nat -> robin + N.of_nat m < U32 -> forallb (fun b => b) av = true ->
   rr_run av robin m =
